@@ -9,6 +9,7 @@
 #include <signal.h>
 #include <unistd.h>
 #include "a/utf.h"
+#include "a/str.h"
 
 static long n_events;
 static FILE *fo[64];
@@ -122,6 +123,33 @@ static void ev_bytes(unsigned char const *b, int len)
         pos += (int)d;
     }
     fprintf(f, "],\"count\":%lu,\"stop\":%lu}\n", (unsigned long)cnt, (unsigned long)stop);
+    /* the same count through the string object: the stated length is the string's length, the capacity behind it
+       holds stale text that must not be counted */
+    {
+        a_str str;
+        unsigned char *blk = (unsigned char *)malloc((size_t)len + 8);
+        memcpy(blk, b, (size_t)len);
+        memset(blk + len, 'q', 8);
+        str.ptr_ = (char *)blk; str.num_ = (a_size)len; str.mem_ = (a_size)len + 8;
+        snprintf(cur_desc, sizeof(cur_desc), "\"f\":\"length\",\"via\":\"a_utf_len\",\"len\":%d,\"b0\":%d", len, len > 0 ? b[0] : -1);
+        stop = 12345;
+        cnt = a_utf_len(&str, &stop);
+        free(blk);
+        f = out();
+        fprintf(f, "{\"f\":\"length\",\"via\":\"a_utf_len\",\"num\":%d,\"b\":", len);
+        put_bytes(f, b, len);
+        fputs(",\"decs\":[", f);
+        pos = 0; first = 1;
+        for (;;)
+        {
+            unsigned int d = dec(b + pos, len - pos, NULL);
+            fprintf(f, first ? "%u" : ",%u", d);
+            first = 0;
+            if (!d || pos > len) { break; }
+            pos += (int)d;
+        }
+        fprintf(f, "],\"count\":%lu,\"stop\":%lu}\n", (unsigned long)cnt, (unsigned long)stop);
+    }
 }
 
 int main(int argc, char **argv)
